@@ -357,6 +357,16 @@ def apply_fault(token, token2, fault, raw_payload: bool):
         for m in ("signatures", "signature", "protected", "header"):
             t.pop(m, None)
         return t
+    if k.startswith("add-protected-"):
+        # an entry without protected header (everything unprotected) gets a protected member that decodes to the empty object:
+        # the signing input changes from "." + payload to "<that text>." + payload
+        ents_ = t["signatures"] if general else [t]
+        done = False
+        for e in ents_:
+            if isinstance(e, dict) and "protected" not in e:
+                e["protected"] = k[len("add-protected-"):]
+                done = True
+        return t if done else None
     if k == "to-general":
         if general:
             return None
@@ -434,7 +444,7 @@ def apply_fault(token, token2, fault, raw_payload: bool):
     return None
 
 
-STRUCTURAL = ["sigs-empty", "sigs-missing", "to-general", "to-flattened", "unprotected-b64-false", "unprotected-b64-true",
+STRUCTURAL = ["add-protected-e30", "add-protected-eyB9", "add-protected-IHt9", "sigs-empty", "sigs-missing", "to-general", "to-flattened", "unprotected-b64-false", "unprotected-b64-true",
               "unprotected-extra", "drop-protected", "drop-header", "append-forged", "prepend-forged", "duplicate", "swap-sigs"]
 NONE_KINDS = ["none-empty-sig", "none-keep-sig", "none-in-header-keep-rest"]
 
@@ -602,6 +612,37 @@ def run_fault(case, mplan, keymode, token, token2, fault, entry):
             return judge(entry, token, p2, keymode, payload, keyarg_override=ks)
         finally:
             ks.keys[j] = old
+    if fault["kind"] == "es-other-curve":
+        # the verifier's EC key lives on another curve than the algorithm names; the token was signed with that key (ECDSA with the
+        # algorithm's hash on the key's curve): not a signature of the named algorithm
+        from ref.ec import CURVES as _C
+        i = fault["i"] % len(mplan["members"])
+        m = mplan["members"][i]
+        if m["alg"] not in rjws.ES_CURVE:
+            return "n/a"
+        crv, hn = rjws.ES_CURVE[m["alg"]]
+        other = fault["crv"]
+        if other == crv:
+            return "n/a"
+        nk = gk.ec_from_d(other, 0xA11CE + case["otherkey_seed"] % 1000)
+        c = _C[other]
+
+        def sign(msg):
+            r, s_ = c.ecdsa_sign(nk["d"], msg, hn, b"")
+            return r.to_bytes(c.nsize, "big") + s_.to_bytes(c.nsize, "big")
+        if isinstance(token, (str, bytes)):
+            t = token if isinstance(token, str) else token.decode("ascii", "ignore")
+            parts = t.split(".")
+            if len(parts) != 3:
+                return "n/a"
+            ft = ".".join([parts[0], parts[1], rb.encode(sign((parts[0] + "." + parts[1]).encode()))])
+        else:
+            ft = copy.deepcopy(token)
+            ent = ft["signatures"][i] if "signatures" in ft else ft
+            ent["signature"] = rb.encode(sign((ent.get("protected", "") + "." + ft["payload"]).encode()))
+        p2 = copy.deepcopy(mplan)
+        p2["members"][i]["key"] = gk.key_to_record(nk)
+        return judge(entry, ft, p2, keymode, payload)
     if fault["kind"] == "pss-salt":
         # the same token re-signed by the reference key holder with RSASSA-PSS but another salt length: not a PS256/384/512 signature
         from Crypto.Signature import pss
@@ -721,7 +762,8 @@ def run_shard(ctx, spec):
                             ctx.finding(finding_key(mplan, fault, r2[0]), r2[1], {"case": case, "fault": fault, "entry": e, "token": token, "token2": token2})
         # key rotation inside a long-lived key set, PSS signatures with a foreign salt length
         for i in range(len(mplan["members"])):
-            more = [{"kind": "keysub-inplace", "i": i}] + ([{"kind": "pss-salt", "i": i, "salt": s_} for s_ in (0, 20, 33, 64)] if algs[i].startswith("PS") else [])
+            more = [{"kind": "keysub-inplace", "i": i}] + ([{"kind": "pss-salt", "i": i, "salt": s_} for s_ in (0, 20, 33, 64)] if algs[i].startswith("PS") else []) + \
+                   ([{"kind": "es-other-curve", "i": i, "crv": c_} for c_ in ("P-256", "P-384", "P-521", "secp256k1")] if algs[i].startswith("ES") else [])
             for fault in more:
                 for e in ents:
                     if e.startswith("jwt.decode") or e.endswith(("+again", "+otherpayload", "+registry")):
@@ -770,7 +812,7 @@ def replay(rec) -> dict:
         return {}
     if r in (None, "ok", "n/a"):
         return {}
-    if fault["kind"] in ("keysub", "keysub-inplace", "pss-salt"):
+    if fault["kind"] in ("keysub", "keysub-inplace", "pss-salt", "es-other-curve"):
         algs = [m["alg"] for m in mplan["members"]]
         return {f"C01:{fault['kind']}:{mplan['ser']}:{algs[fault['i'] % len(algs)][:2]}:{r[0]}": r[1]}
     return {finding_key(mplan, fault, r[0]): r[1]}
